@@ -134,7 +134,7 @@ func evalOnce(op *Op, ecos []Eco, vw view) (res string) {
 	case KNewV:
 		v, err := e.NewVersion(op.S)
 		if err != nil {
-			return "err"
+			return "err:" + err.Error()
 		}
 		if v == nil {
 			return "nil-without-error"
@@ -171,7 +171,7 @@ func evalOnce(op *Op, ecos []Eco, vw view) (res string) {
 	case KNewR:
 		r, err := e.NewRange(op.S)
 		if err != nil {
-			return "err"
+			return "err:" + err.Error()
 		}
 		if r == nil {
 			return "nil-without-error"
@@ -196,7 +196,7 @@ func evalOnce(op *Op, ecos []Eco, vw view) (res string) {
 		simrt.ResetOpSteps()
 		ok, err := vers.Contains(op.S, op.T)
 		if err != nil {
-			return "err"
+			return "err:" + err.Error()
 		}
 		return strconv.FormatBool(ok)
 	case KSort:
